@@ -30,3 +30,41 @@ def layout_field_range(ctx, rule: str, site: str, construct: str, method_ctor, d
     m = pmatch("range(Q_n)", got) if got is not None else None
     ok = m is not None and lin_equal(m["n"], pat(want))
     ctx.check(ok, rule, site, construct, found=tstr(got) if got is not None else "field not found", required=f"range({want}): {why}")
+
+
+def ident_field_range(ctx, rule: str, site: str, construct: str, method_ctor, direction: str, field: str, want: str, why: str):
+    """Like layout_field_range, for fields that carry identifiers: `range(want)` or `ArrayLayout(range(want), k)`."""
+    kw = dict(method_ctor[3]) if method_ctor is not None and method_ctor[0] == "call" else {}
+    lay = kw.get(direction)
+    got = None
+    if lay is not None and lay[0] == "list":
+        for f in lay[1:]:
+            if f[0] == "tuple" and len(f) == 3 and f[1] == ("c", field):
+                got = f[2]
+    m = None
+    if got is not None:
+        m = pmatch("range(Q_n)", got) or pmatch("ArrayLayout(range(Q_n), Q_k)", got)
+    ok = m is not None and lin_equal(m["n"], pat(want))
+    ctx.check(ok, rule, site, construct, found=tstr(got) if got is not None else "field not found", required=f"range({want}): {why}")
+
+
+def port_declarations(ctx, pid: str, comp, cls: str, table) -> int:
+    """Declared shapes of the interface signals of a component: table = [(attr, kind, bound, why)], kind in
+    'index' (Signal(range(bound))), 'bits' (Signal(bound)), 'index-array' (Signal(ArrayLayout(range(bound), k)))."""
+    n = 0
+    for attr, kind, bound, why in table:
+        ctor = comp.init_attr(attr)
+        m = None
+        if ctor is not None and ctor[0] == "call" and ctor[1] == ("n", "Signal") and len(ctor[2]) == 1:
+            a0 = ctor[2][0]  # keyword arguments (init=, name=) do not change the shape
+            if kind == "index":
+                m = pmatch("range(Q_n)", a0)
+            elif kind == "bits":
+                m = {"n": a0}
+            else:
+                m = pmatch("ArrayLayout(range(Q_n), Q_k)", a0)
+        ok = m is not None and lin_equal(m["n"], pat(bound))
+        n += 1
+        ctx.check(ok, f"{pid}.port-shape", comp.site, f"{cls}.{attr}", found=tstr(ctor) if ctor is not None else "not declared",
+                  required={"index": f"Signal(range({bound}))", "bits": f"Signal({bound})", "index-array": f"Signal(ArrayLayout(range({bound}), ..))"}[kind] + ": " + why)
+    return n
